@@ -137,6 +137,47 @@ theorem slice_remove_out (cmp : Int → Int → Bool) (s : List Int) (i : Int)
   have : (i < 0 ∨ i ≥ (s.length : Int)) := by omega
   simp [Slice.remove, this]
 
+/-- `Remove(i)` below the last position from the bare order facts: the array need NOT be a heap at
+`i` (the value at `i` may have been changed without `Fix`); all pairs not involving `i` are in order
+and the children of `i` do not precede `i`'s parent. -/
+theorem slice_remove_run_core {cmp} (hs : SWO cmp) (s : List Int) (i n : Nat)
+    (hn : s.length = n + 1) (hin : i < n)
+    (hpair : ∀ c, c < n → 1 ≤ c → c ≠ i → par c ≠ i → cmp (nthN s c) (nthN s (par c)) = false)
+    (hgrand : 1 ≤ i → ∀ c, c < n → 1 ≤ c → par c = i → cmp (nthN s c) (nthN s (par i)) = false) :
+    ∃ s2, swapL s (i : Int) (n : Int) = some (swapN s i n) ∧
+      fix (sliceOps cmp) (swapN s i n) (i : Int) (n : Int) = some s2 ∧
+      s2.length = n + 1 ∧ nthN s2 n = nthN s i ∧ Heap cmp (s2.take n) ∧
+      (nthN s i :: s2.take n).Perm s := by
+  have hi : i < s.length := by omega
+  have hsw := swapL_cast s i n hi (by omega)
+  have hsame : ∀ k, k < n → k ≠ i → nthN (swapN s i n) k = nthN s k := by
+    intro k hk hki
+    rw [nthN_swapN s i n hi (by omega)]
+    have : k ≠ n := by omega
+    simp [swapF, *]
+  obtain ⟨s2, hrun, hlen2, hperm2, htail, hheap⟩ :=
+    fix_spec_core hs (swapN s i n) i n (by simp; omega) hin
+      (by
+        intro c hc hc1 hci hpi
+        have : par c < n := by unfold par; omega
+        rw [hsame c hc hci, hsame (par c) this hpi]; exact hpair c hc hc1 hci hpi)
+      (by
+        intro hi1 c hc hc1 hpc
+        have hci : c ≠ i := by unfold par at hpc; omega
+        have hpi : par i ≠ i := by unfold par; omega
+        have : par i < n := by unfold par; omega
+        rw [hsame c hc hci, hsame (par i) this hpi]; exact hgrand hi1 c hc hc1 hpc)
+  have hlen2' : s2.length = n + 1 := by rw [hlen2]; simp [hn]
+  have hx : nthN s2 n = nthN s i := by
+    rw [htail n (Nat.le_refl _), nthN_swapN s i n hi (by omega)]
+    simp [swapF]
+  refine ⟨s2, hsw, hrun, hlen2', hx, heap_take (by omega) hheap, ?_⟩
+  have h1 := eq_take_append_last s2 n hlen2'
+  rw [hx] at h1
+  have p : (nthN s i :: s2.take n).Perm (s2.take n ++ [nthN s i]) :=
+    List.perm_append_comm (l₁ := [nthN s i]) (l₂ := s2.take n)
+  exact (p.trans (by rw [← h1])).trans (hperm2.trans (swapN_perm s i n hi (by omega)))
+
 /-- The run of `Remove(i)` for `i` below the last position `n`, call by call: `swap(i, n)`,
 `fix(i, n)`; the result keeps the length, holds the victim at position `n`, its first `n`
 positions are a heap and, with the victim, a permutation of `s`. -/
@@ -208,6 +249,56 @@ theorem slice_remove_in {cmp} (hs : SWO cmp) (s : List Int) (i : Nat) (h : Heap 
       have p : (nthN s i :: s2.take n).Perm (s2.take n ++ [nthN s i]) :=
         List.perm_append_comm (l₁ := [nthN s i]) (l₂ := s2.take n)
       exact (p.trans (by rw [← h1])).trans (hperm2.trans (swapN_perm s i n hi (by omega)))
+
+/-- `s.Values[k] = v; s.Remove(k)`: removing an element whose value was changed without `Fix`
+removes exactly it and leaves a heap. -/
+theorem slice_remove_after_set {cmp} (hs : SWO cmp) (s0 : List Int) (k : Nat) (v : Int)
+    (h : Heap cmp s0) (hk : k < s0.length) :
+    ∃ s', Slice.remove cmp (s0.set k v) (k : Int) = some (s', v, true) ∧ Heap cmp s' ∧
+      (v :: s').Perm (s0.set k v) := by
+  let s := s0.set k v
+  have hlen : s.length = s0.length := by simp [s]
+  obtain ⟨n, hn⟩ : ∃ n, s.length = n + 1 := ⟨s.length - 1, by omega⟩
+  have hguard : ¬ ((k : Int) < 0 ∨ (k : Int) ≥ (s.length : Int)) := by omega
+  have e1 : ((s.length : Nat) : Int) - 1 = ((n : Nat) : Int) := by omega
+  have hvk : nthN s k = v := by simp [s, nthN, List.getElem?_set, hk]
+  have hsame : ∀ c, c ≠ k → nthN s c = nthN s0 c := fun c hc => nthN_set s0 k v c hc
+  show ∃ s', Slice.remove cmp s (k : Int) = some (s', v, true) ∧ Heap cmp s' ∧ (v :: s').Perm s
+  by_cases hkn : n = k
+  · subst hkn
+    have : ¬ (((n : Nat) : Int) ≠ ((n : Nat) : Int)) := by simp
+    refine ⟨s.take n, ?_, ?_, ?_⟩
+    · simp only [Slice.remove, hguard, if_false, e1, this, nth_cast s n (by omega), Int.toNat_natCast, hvk]
+    · refine heap_take (by omega) ?_
+      intro c hc hc1 hlo
+      have hp : par c < n := by unfold par; omega
+      rw [hsame c (by omega), hsame (par c) (by omega)]
+      exact h c (by omega) hc1 hlo
+    · have h1 := eq_take_append_last s n hn
+      rw [hvk] at h1
+      have p : (v :: s.take n).Perm (s.take n ++ [v]) :=
+        List.perm_append_comm (l₁ := [v]) (l₂ := s.take n)
+      exact p.trans (by rw [← h1])
+  · have hin : k < n := by omega
+    obtain ⟨s2, hsw, hfix, hlen2, hx, hheap, hperm⟩ :=
+      slice_remove_run_core hs s k n hn hin
+        (by
+          intro c hc hc1 hck hpk
+          rw [hsame c hck, hsame (par c) hpk]
+          exact h c (by omega) hc1 (Nat.zero_le _))
+        (by
+          intro hk1 c hc hc1 hpc
+          have hck : c ≠ k := by unfold par at hpc; omega
+          have hpk : par k ≠ k := by unfold par; omega
+          rw [hsame c hck, hsame (par k) hpk]
+          have h1 := h c (by omega) hc1 (Nat.zero_le _)
+          rw [hpc] at h1
+          exact hs.negTrans (h k hk hk1 (Nat.zero_le _)) h1)
+    rw [hvk] at hx hperm
+    refine ⟨s2.take n, ?_, hheap, hperm⟩
+    have hne : (((n : Nat) : Int) ≠ ((k : Nat) : Int)) := by omega
+    simp only [Slice.remove, hguard, if_false, e1, hne, if_true, hsw, hfix,
+      nth_cast s2 n (by omega), hx, Int.toNat_natCast, ne_eq, not_false_eq_true]
 
 /-- `Fix(i)` out of range: a no-op. -/
 theorem slice_fix_out (cmp : Int → Int → Bool) (s : List Int) (i : Int)
